@@ -261,6 +261,31 @@ impl Prop for C20 {
     fn cases(&self, tier: Tier) -> u64 {
         tier.pick(400, 6_000)
     }
+    fn fixed_cases(&self, _tier: Tier) -> Vec<C20Case> {
+        // the longest transmissions of the domain: 8 frames of 300 bytes (about 20 000 HDLC
+        // bits reach the deframer, under the single-threaded runner in very few calls)
+        let mut v = Vec::new();
+        for chain in 0..2u8 {
+            for (rate_idx, tail) in [(0u8, 0u8), (1, 2)] {
+                v.push(C20Case {
+                    chain,
+                    rate_idx,
+                    frames: (0..8u32).map(|i| FrameSpec { len: 300, pat: (i % 6) as u8, seed: 1000 + i, sep_flags: 2, idle_ones: 0 }).collect(),
+                    preamble_flags: 30,
+                    phase: 12345,
+                    timing: 23456,
+                    amp: 128,
+                    small_streams: false,
+                    tail,
+                    lead_silence: 1000,
+                });
+            }
+        }
+        v
+    }
+    fn exhaustive_subdomains(&self) -> Vec<String> {
+        vec!["longest transmissions: 8 frames x 300 bytes on both chains (trailing flags and silence tail)".into()]
+    }
     fn run(&self, c: &C20Case, ctx: &mut Ctx) {
         let chain = if c.chain % 2 == 0 { "1200-afsk" } else { "9600-g3ruh" };
         let sr = rate_of(c);
